@@ -1124,13 +1124,34 @@ fn eval_sliced(slot: &mut Slot, cell: &Cell, budget: usize, slices: &[usize], ke
     }
 }
 
+thread_local! {
+    /// culprit of an evaluation-stage failure, by failing datum (shrinking revisits the same data)
+    static CULPRITS: RefCell<std::collections::HashMap<(String, String), String>> = RefCell::new(Default::default());
+}
+
 fn eval_fails_like(stage: String) -> impl Fn(&str) -> bool {
+    // the Vm is shared between the probes (and replaced after a panic or a defining piece, see
+    // `eval_text_checked`): they are windows of one text, state carried over does not matter here
     move |piece: &str| {
-        SLOT.with(|s| *s.borrow_mut() = None);
         let r = eval_text_guarded(piece, 20_000, None);
-        SLOT.with(|s| *s.borrow_mut() = None);
         matches!(&r.fail, Some((st, _, _)) if *st == stage)
     }
+}
+
+fn eval_culprit(stage: &str, at: &str) -> String {
+    let key = (stage.to_string(), at.to_string());
+    if let Some(c) = CULPRITS.with(|m| m.borrow().get(&key).cloned()) {
+        return c;
+    }
+    let c = rg::culprit_window(at, &eval_fails_like(stage.to_string()));
+    CULPRITS.with(|m| {
+        let mut m = m.borrow_mut();
+        if m.len() > 10_000 {
+            m.clear();
+        }
+        m.insert(key, c.clone());
+    });
+    c
 }
 
 const TEXT_BUDGET: usize = 20_000;
@@ -1185,7 +1206,7 @@ fn text_check(ctx: &Ctx, kind: &str, gen_class: &str, text: &str, cursor: usize,
         let culprit = match stage.as_str() {
             "parse_text" | "parse-error-render" => rg::culprit_window(&at, &parse_panics),
             "Vm::new" => "-".to_string(),
-            _ => rg::culprit_window(&at, &eval_fails_like(stage.clone())),
+            _ => eval_culprit(&stage, &at),
         };
         let kind = if stage.ends_with("canary") {
             "canary"
